@@ -257,6 +257,9 @@ SLICE = {
 }
 
 
+TEXT_PROPS = {"C05", "C06", "C08", "C11", "C12", "C13"}
+
+
 def run_case(driver, cfg, props, model=True):
     """returns dict: status in {rejected, extractor-error, ok}, findings per prop"""
     if props and SLICE.get(props[0], "all") is None:
@@ -287,9 +290,22 @@ def run_case(driver, cfg, props, model=True):
             for k, v in (res2.get("findings") or {}).items():
                 if isinstance(v, list):
                     findings[k] = findings.get(k, []) + [dict(f, site=f["site"] + " (second rendering)") for f in v]
-        except svtok.TokError:
-            pass
-    return {"status": "ok", "findings": findings, "model": res.get("model"), "holds": res.get("holds", {}),
+            unreadable = res2.get("error")
+        except svtok.TokError as e:
+            unreadable = str(e)
+        if unreadable:
+            # the text emitted the second time is not SystemVerilog of the emitted subset any more: the properties
+            # about the text of the two files fail for it (the ones about routes are not judged on it)
+            for k in props:
+                if k in TEXT_PROPS and isinstance(findings.get(k, []), list):
+                    findings[k] = findings.get(k, []) + [{
+                        "claim": "second-rendering-unreadable", "site": "second rendering of the same compiled network",
+                        "detail": "rendering the same compiled network again emits different text that cannot be read as "
+                                  "a package / module: " + unreadable[:200]}]
+    holds = res.get("holds", {})
+    if not r.rerender_same:
+        holds = {}          # the decider's verdict is about the first rendering only
+    return {"status": "ok", "findings": findings, "model": res.get("model"), "holds": holds,
             "rerender_same": r.rerender_same}
 
 
